@@ -144,7 +144,8 @@ func init() {
 	})
 	register(&PropDef{
 		ID: "C16", Patterns: []string{"./interp"},
-		Covered: []string{"importSrc: already imported => recorded name returned, no evaluation step; cycle check precedes every evaluation step and yields an error; success registers the package; relative imports of main resolve against '.' for nested packages", "previousRoot: every ancestor below GOPATH/src is searched for a vendor directory through the supplied file system, nearest first", "pkgDir: vendor of the importer first, then GOPATH/src, then the enclosing roots", "importSrc reads the directory and continues from the root that pkgDir returned"},
+		Extra: func(r *Run) { r.fsPassThrough() },
+		Covered: []string{"importSrc: already imported => recorded name returned, no evaluation step; cycle check precedes every evaluation step and yields an error; success registers the package; relative imports of main resolve against '.' for nested packages", "previousRoot: every ancestor below GOPATH/src is searched for a vendor directory through the supplied file system, nearest first", "pkgDir: vendor of the importer first, then GOPATH/src, then the enclosing roots", "importSrc reads the directory and continues from the root that pkgDir returned", "realFS: each fs operation it provides passes its parameters to the os function of the same name"},
 		Uncov:   []string{"effectivePkg (path-segment manipulation): not under contract", "real vs. virtual filesystem equivalence beyond previousRoot's lookups"},
 		Trusted: []string{"T1 go toolchain, solvers", "T2 govc"},
 	})
